@@ -16,9 +16,9 @@ Open Scope N_scope.
 
 Require Coq.Strings.String. Import String.StringSyntax.
 (* hash of the token-stream pin (the cpp/ lines of pins/c14c.txt: 13 renderings of serialization.hpp) of the header text this file
-   and PrimsExt.v model; Properties/C14.v requires Gen_Pin_c14c.pin_c14c_sha_cpp to be this one while the bitspan fix is pending *)
+   and PrimsExt.v model; Properties/C14.v requires Gen_Pin_c14c.pin_c14c_sha_cpp to be this one *)
 Local Open Scope string_scope.
-Definition modelled_cpp_header_sha : String.string := "2d28b0f4e27ee1337f6c1876985d75c1".
+Definition modelled_cpp_header_sha : String.string := "d7c80548aea56240e85bfed83597dd4a".
 Local Close Scope string_scope.
 
 Record span := mkspan { sp_data : bytes; sp_size : N; sp_off : N }.
@@ -41,17 +41,22 @@ Definition align_offset_to (s : span) (n_bits : N) : span :=
 (* any_bitspan::subspan(bits) and subspan_bytes(n): current text in Prims/PrimsExt.v (subspan_clamped, subspan_bytes_clamped);
    the unclamped text of before /repo 939fc9d is History/C14_history.v *)
 
-(* bitspan::subspan(bits_at, size_bits) -> Result<bitspan> *)
+(* bitspan::subspan(bits_at, size_bits) -> Result<bitspan>  (text of /repo fcc36ca: `if (offset_bits < bits_at)` after the possibly
+   wrapping sum, and the saturating test `(size_bits > size_available_bits) || (new_offset_bits > size_available_bits - size_bits)`;
+   the text of before, whose sums wrapped silently, is History/C14_history.v: finding F-BITSPAN-SUBSPAN-WRAP, fixed) *)
 Definition subspan2 (s : span) (bits_at size_bits : N) : span + err :=
   let offset_bits := w64 (sp_off s + bits_at) in
-  let offset_bytes := offset_bits / 8 in
-  let new_offset_bits := offset_bits mod 8 in
-  if sp_size s <? offset_bytes then inr TooSmall
+  if offset_bits <? bits_at then inr TooSmall                              (* the sum wrapped around *)
   else
-    let new_size_bits := w64 (new_offset_bits + size_bits) in
-    let size_available_bits := w64 ((sp_size s - offset_bytes) * 8) in
-    if size_available_bits <? new_size_bits then inr TooSmall
-    else inl (mkspan (skipn (N.to_nat offset_bytes) (sp_data s)) (new_size_bits / 8) new_offset_bits).
+    let offset_bytes := offset_bits / 8 in
+    let new_offset_bits := offset_bits mod 8 in
+    if sp_size s <? offset_bytes then inr TooSmall
+    else
+      let size_available_bits := w64 ((sp_size s - offset_bytes) * 8) in
+      if (size_available_bits <? size_bits) || (size_available_bits - size_bits <? new_offset_bits) then inr TooSmall
+      else
+        let new_size_bits := w64 (new_offset_bits + size_bits) in
+        inl (mkspan (skipn (N.to_nat offset_bytes) (sp_data s)) (new_size_bits / 8) new_offset_bits).
 
 (* const_bitspan::copyTo(dst, length_bits); result = the destination memory *)
 Definition copyTo (src dst : span) (length_bits : N) : option bytes :=
@@ -134,11 +139,12 @@ Definition setZeros (s : span) (length : N) : option (bytes + err) :=
         end
     end.
 
-(* bitspan::padAndMoveToAlignment(n_bits): result = memory and the new offset *)
+(* bitspan::padAndMoveToAlignment(n_bits): result = memory and the new offset  (text of /repo fcc36ca: `const size_t padding = ...`;
+   the text of before cast the padding to uint8_t: History/C14_history.v, finding F-BITSPAN-PAD-TRUNC, fixed) *)
 Definition padAndMoveToAlignment (s : span) (n_bits : N) : option ((bytes * N) + err) :=
   if n_bits =? 0 then None                                                (* % 0 *)
   else
-    let padding := cast_u 8 (n_bits - sp_off s mod n_bits) in
+    let padding := n_bits - sp_off s mod n_bits in                        (* size_t; in [1, n_bits]: no wrap, no truncation *)
     if negb (padding =? n_bits) then
       match setZeros s padding with
       | None => None
